@@ -12,7 +12,7 @@ TRUST = ('Trusted: TLC; the simulated transport, block exchange and cache of har
 CLAIMS = {
     'C18': ('tla-lifecycle', 'spec/Lifecycle.tla (moments x close kinds x later operations) model-checked; moments reached on a real instance with on-disk LevelDB directories by gates; Close / Close twice / instance Close (once, twice) / Drop; goroutines started since the store (instance) was opened identified by id must be gone; later operations under a watchdog; directory reopened; sibling database checked.',
             'Goroutine attribution and hang detection are runtime observations; 19-28 moments quick, up to 200 thorough.', '6 C18'),
-    'C19': ('tla-status', 'spec/Status.tla (the status arithmetic driven by its real trigger flows) model-checked: Monotone, RestOK; flows realised on a real store with gated replicator tasks; every individual SetMax/SetProgress recorded by a hook under its lock and checked; values compared with the specification after every settled step; reload from disk.',
+    'C19': ('tla-status', 'spec/Status.tla (the status arithmetic driven by its real trigger flows) model-checked: Monotone, RestOK; flows realised on a real store with gated replicator tasks; every individual SetMax/SetProgress recorded by a hook under its lock and checked; values compared with the specification after every settled step; reload from disk; SaveSnapshot and LoadFromSnapshot on a fresh instance.',
             'Bounds: <=4-6 local writes interleaved with a remote chain of 4-6 entries.', '6 C19'),
     'C20': ('tla-transport', 'spec/Transport.tla (membership diff, message delivery, framing) model-checked; snapshot sequences (lists with duplicates) and interleaved publishes fed to the real pubsubcoreapi adapter through a scripted PubSubAPI with gated polls; pairwise channel over the same API (name symmetry for random peer ids, attribution, own messages); frames 0, 1, limit-1, limit, limit+1 and malformed frames over real libp2p streams (mocknet).',
             'pubsubraw (gossipsub timing) is not driven; byte-exactness is checked on the concrete payloads.', '6 C20'),
